@@ -29,6 +29,7 @@ Print Assumptions C17_ptr_compare.
 Theorem C17_ptr_hash :
   forall pyval py_hash ia t a, hash pyval py_hash (Build_obj ia (VPtr t a)) = HOk (hash_pointer a).
 Proof. exact ptr_hash. Qed.
+Print Assumptions C17_ptr_hash.
 
 (* primitive cdata compare and hash exactly as the Python value they convert to *)
 Theorem C17_prim_py_compare :
@@ -54,6 +55,34 @@ Print Assumptions C17_py_prim_compare.
 Theorem C17_prim_hash :
   forall pyval py_hash ia sa x, hash pyval py_hash (Build_obj ia (VPrim sa (CvVal x))) = py_hash x.
 Proof. exact prim_hash. Qed.
+Print Assumptions C17_prim_hash.
+
+(* primitive cdata that do NOT convert to an ordinary Python value: long double (conversion gives
+   a cdata: comparisons raise NotImplementedError, hash is that of its own storage) and values
+   whose conversion raises (comparisons and hash raise): nothing compares equal to them, so
+   C17_eq_implies_hash covers them vacuously — these theorems say what happens instead *)
+Theorem C17_longdouble_compare : forall pyval py_cmp ia ib sa (w : value pyval) op,
+  is_ptr w = false ->
+  richcompare pyval py_cmp (Build_obj ia (VPrim sa CvCData)) (Build_obj ib w) op = RErr NotImplementedError.
+Proof. exact prim_cdata_compare_l. Qed.
+Print Assumptions C17_longdouble_compare.
+Theorem C17_longdouble_compare_reflected : forall pyval py_cmp ia ib sa x op,
+  richcompare pyval py_cmp (Build_obj ia (VPy x)) (Build_obj ib (VPrim sa CvCData)) op = RErr NotImplementedError.
+Proof. exact prim_cdata_compare_r. Qed.
+Print Assumptions C17_longdouble_compare_reflected.
+Theorem C17_longdouble_hash : forall pyval py_hash ia sa,
+  hash pyval py_hash (Build_obj ia (VPrim sa CvCData)) = HOk (hash_pointer sa).
+Proof. exact prim_cdata_hash. Qed.
+Print Assumptions C17_longdouble_hash.
+Theorem C17_unconvertible_compare : forall pyval py_cmp ia ib sa (w : value pyval) op,
+  is_ptr w = false ->
+  richcompare pyval py_cmp (Build_obj ia (VPrim sa CvErr)) (Build_obj ib w) op = RErr ConvError.
+Proof. exact prim_converr_compare_l. Qed.
+Print Assumptions C17_unconvertible_compare.
+Theorem C17_unconvertible_hash : forall pyval py_hash ia sa,
+  hash pyval py_hash (Build_obj ia (VPrim sa CvErr)) = HErr ConvError.
+Proof. exact prim_converr_hash. Qed.
+Print Assumptions C17_unconvertible_hash.
 
 (* pointer-like against primitive cdata or against a non-cdata: NotImplemented on both sides,
    so == / != are object identity and the orderings raise TypeError *)
